@@ -15,3 +15,13 @@ pub(crate) fn set_slots1<'e, U>(ctx: &mut ExecutionContext<'e, U>, v: Option<Lhs
     let old = std::mem::replace(&mut ctx.values, Box::new([v]));
     std::mem::forget(old);
 }
+
+/// Same for a two-field context.
+pub(crate) fn set_slots2<'e, U>(
+    ctx: &mut ExecutionContext<'e, U>,
+    v0: Option<LhsValue<'e>>,
+    v1: Option<LhsValue<'e>>,
+) {
+    let old = std::mem::replace(&mut ctx.values, Box::new([v0, v1]));
+    std::mem::forget(old);
+}
